@@ -126,6 +126,12 @@ func checkC18(c *Ctx) {
 				return
 			}
 			n++
+			// the runaway-macro drop: nil stored where the feed budget is known to be exceeded
+			// (C01.macro-budget; a macro that runs itself has no finite replay to be faithful to)
+			if isNilConst(st.Val) && feedBudgetExceeded(factsAt(bf, in)) {
+				r.OK("C18.feed-order", fmt.Sprintf("%s:store(macroKeys)#%d", fnFeed, n-1), p.IPos(in), "the queue is dropped only past the feed budget (runaway macro)")
+				return
+			}
 			cl, isCall := st.Val.(*ssa.Call)
 			if !isCall {
 				r.Bad("C18.feed-order", fmt.Sprintf("%s:store(macroKeys)#%d", fnFeed, n-1), p.IPos(in), "macroKeys assigned from something other than append")
@@ -369,4 +375,19 @@ func checkNoNarrowing(c *Ctx, rule string) {
 			}
 		}
 	}
+}
+
+// feedBudgetExceeded: a `feeds > constant` outcome (constant >= 100: a budget no
+// hand-written macro chain reaches) is among the facts.
+func feedBudgetExceeded(facts map[Fact]bool) bool {
+	for fc := range facts {
+		rel, ok := relOf(fc.Cond, fc.Val)
+		if !ok || !isFieldLoad(stripConv(rel.X), "core.Keys", "feeds") {
+			continue
+		}
+		if k, isK := constInt(rel.Y); isK && k >= 100 && (rel.Op == token.GTR || rel.Op == token.GEQ) {
+			return true
+		}
+	}
+	return false
 }
